@@ -2,6 +2,7 @@
 import copy
 import gc
 import json
+import os
 import pickle
 import shutil
 import tempfile
@@ -105,6 +106,7 @@ def check(case):
     src = copy.deepcopy(parts)
     pristine = copy.deepcopy(parts)
     tmp = None
+    saved_home = False
     events = set()
     try:
         def build():
@@ -119,6 +121,8 @@ def check(case):
             for i, p in enumerate(src):
                 path = Path(tmp) / f'part{i}.json'
                 path.write_text(json.dumps(p))
+                if case.get('tilde'):
+                    path = Path('~') / path.name  # spelled relative to the home directory (HOME points at tmp)
                 paths.append(str(path) if i % 2 == 0 else path)
             if form == 'list':
                 db_ = database.JsonDatabase(paths)
@@ -130,6 +134,9 @@ def check(case):
             return database.JsonDatabase(*paths)
         if backend == 'json':
             tmp = tempfile.mkdtemp(prefix='verif_c19_')
+            if case.get('tilde'):
+                saved_home = os.environ.get('HOME')
+                os.environ['HOME'] = tmp
         try:
             db = build()
             if backend == 'json':
@@ -211,7 +218,11 @@ def check(case):
                 want = bad if bad else want
             else:
                 want = expected(datasets, alias, name)
-            arg = name if not isinstance(name, list) else (tuple(name) if req[2] == 'tuple' else list(name))
+            arg = name
+            if isinstance(name, list):
+                # a sequence of names in whatever iterable the caller has: list, tuple, or a one-shot iterator
+                arg = {'tuple': tuple(name), 'gen': (nm_ for nm_ in name), 'iter': iter(list(name)),
+                       'map': map(str, name)}.get(req[2], list(name))
             try:
                 ds = db.get_dataset(arg)
                 got = list(ds)
@@ -289,6 +300,11 @@ def check(case):
             events.add('files-rewritten')
         return events
     finally:
+        if saved_home is not False:
+            if saved_home is None:
+                os.environ.pop('HOME', None)
+            else:
+                os.environ['HOME'] = saved_home
         if tmp:
             shutil.rmtree(tmp, ignore_errors=True)
 
@@ -339,7 +355,7 @@ def st_case(draw):
             reqs.append(['pickle'] + (['files_change'] if draw(st.booleans()) else []))
         elif r <= 3:
             reqs.append(['get', draw(st.lists(st.sampled_from(names_all[:-1]), min_size=1, max_size=3)),
-                         draw(st.sampled_from(['list', 'tuple']))])
+                         draw(st.sampled_from(['list', 'tuple', 'gen', 'iter', 'map']))])
         else:
             reqs.append(['get', draw(st.sampled_from(names_all)), draw(st.booleans())])
     if draw(st.integers(0, 3)) == 0:
@@ -348,7 +364,8 @@ def st_case(draw):
                  ['get', ['dev', 'test'], 'tuple'], ['get', 'train+dev', False]]
     return {'backend': draw(st.sampled_from(['dict', 'json'])), 'form': draw(st.sampled_from(['varargs', 'list'])),
             'parts': parts, 'requests': reqs, 'second_db': draw(st.integers(0, 3)) == 0,
-            'rewrite': draw(st.integers(0, 2)) == 0, 'share_objs': draw(st.integers(0, 3)) == 0}
+            'rewrite': draw(st.integers(0, 2)) == 0, 'share_objs': draw(st.integers(0, 3)) == 0,
+            'tilde': draw(st.integers(0, 3)) == 0}
 
 
 def run_shard(tier, idx, nshards, rec, known):
